@@ -128,7 +128,7 @@ def _expected(line: str):
             fid, _names, val, ret = f[1:5]
             d = fns.get(fid)
             if d is None:
-                exp.append(("call", None))
+                exp.append(("call", "decor-failed" if fid in fns else None))   # (a call of a function whose decoration was refused)
                 body_update(fid, None)
                 continue
             pid, al, ral = d
@@ -187,9 +187,16 @@ def judge(case, impl_out, spec):
     except Exception:  # noqa: BLE001
         return None
     if len(exp) != len(parts) - 1:
+        # more output parts than steps that produce one: a decoration that the rule lets succeed (any provider object, hashable or not,
+        # "self" on a method, no provider) raised — only `"self"` on a function without self / cls is refused at decoration
+        n_dec = sum(1 for p_ in parts[:-1] if p_.startswith("decor pyexc"))
+        n_exp = sum(1 for w, e in exp if w == "decor" or e == "decor-failed")
+        if n_dec > n_exp:
+            first = next(p_ for p_ in parts[:-1] if p_.startswith("decor pyexc"))
+            return f"a decoration that must succeed raised: {n_dec} output parts say {first!r}, the history explains {n_exp} of them (\"self\" on a function without self / cls)"
         return None
     for k, ((what, e), got) in enumerate(zip(exp, parts)):
-        if e is None:
+        if e is None or e == "decor-failed":
             continue
         if what == "decor":
             if got != e:
